@@ -7,6 +7,8 @@ mod hooks;
 mod impls;
 mod ops;
 mod source_loader;
+#[cfg(feature = "verif")]
+mod verif;
 
 use crate::{
   byte_code::ByteCode,
